@@ -520,7 +520,7 @@ func spec_sent(i int) Token { panic("spec") }
 //@ def assocOf(a PrecAssocType) = ite(a == LeftAssocType, symbol.LEFT, ite(a == RightAssocype, symbol.RIGHT, symbol.NONE))
 
 //@ func (*Walker).BuildLALR1
-//@ props_tagged_only C11 C04 C12 C07 C01 C02 C17 C08 C06
+//@ props_tagged_only C11 C04 C12 C07 C01 C02 C17 C08 C06 C09
 //@ requires w != nil
 //@ may_panic "Check the nonterminal"
 //@ may_panic "Dected infinite loop"
@@ -538,4 +538,6 @@ func spec_sent(i int) Token { panic("spec") }
 //@ before_stmt [C12] "g.InsertNewSymbol(sy)" sy.IsNonTerminator == (id.IDTyp == NONTERMID) && sy.CanTerminate == (id.IDTyp != NONTERMID)
 //@ loop 4: invariant [C12] forall i int :: 0 <= i && i < idx4 && g.Symbols[i].IsNonTerminator ==> has(g.VnSet, g.Symbols[i])
 //@ before_stmt [C12] "g.ResolveSymbols()" forall i int :: 0 <= i && i < len(g.Symbols) && g.Symbols[i].IsNonTerminator ==> has(g.VnSet, g.Symbols[i])
+// C09: state 0 is the closure of the augmented start item (rule 0, dot 0), and it is the only state when the worklist starts
+//@ before_stmt [C09,C01,C02,C06] "g.ComputeAllGoto()" len(g.LR0.LR0Closure) == 1 && g.LR0.LR0Closure[0] == Icloures && Icloures.Index == 0 && item.inIC(Icloures, item.Item{RuleIndex: 0, Dot: 0})
 //@ before_stmt [C12] "item_var := item.NewItem(0, 0)" forall s *symbol.Symbol :: has(g.VnSet, s) ==> s.CanTerminate
